@@ -297,3 +297,16 @@ def random_call(rng, sig, max_pos=5, max_kw=3):
     else:
       sub.add(rng.choice(names))
   return {"npos": n, "kws": sorted(sub), "star": None, "dstar": None}
+
+
+def argument_types_key(call):
+  """What pytype's repeat-call cache sees: positional argument types in order (plain and
+  *seq items alike) and keyword -> type (plain and **map alike).  `f(1)`, `f(1, *())` and
+  `f(1, **{})` have the same key."""
+  pos = [pos_literal(k)[1] for k in range(call["npos"])] + [f"S{k}" for k in range(call.get("star") or 0)]
+  kws = sorted([(n, f"K_{n}") for n in call["kws"]] + [(n, f"Q_{n}") for n in (call.get("dstar") or [])])
+  return repr((pos, kws))
+
+
+# kinds whose parameters are read from an attribute that __new__ sets on the instance
+NEW_CARRIER_KINDS = ("new", "new_inh1", "new_inh2")
